@@ -176,6 +176,24 @@ def run(facts, rep, tier):
             if cn.endswith("get_observer_coords"):
                 getters.append(nm)
     ok = setters == ["main"]
+    if not ok and setters:
+        # a set-up helper of the binary called by main before the reader thread exists does the same
+        from ..cfg import CFG as _CFG
+        mainb = facts.bin_bodies.get("main")
+        ok = mainb is not None
+        if ok:
+            mcfg = _CFG(mainb)
+            spawn = [bb for bb, t in mainb.calls() if (callee_name(t) or "").endswith("spawn_reader_thread")]
+            ok = len(spawn) == 1
+            for nm in setters:
+                if nm == "main":
+                    sites_ = [bb for bb, t in mainb.calls() if (callee_name(t) or "").endswith("set_observer_coords_from_str")]
+                elif nm in facts.bin_bodies:
+                    sites_ = [bb for bb, t in mainb.calls() if callee_name(t) == nm]
+                else:
+                    sites_ = []
+                if not sites_ or not ok or not all(mcfg.dominates(bb, spawn[0]) for bb in sites_):
+                    ok = False
     rep.oblige(ok, ("observer-set",))
     if not ok:
         rep.add(Finding("R19.2", "observer coordinates set from %s" % setters, "the observer position is set outside main: %s" % setters, None))
